@@ -116,7 +116,97 @@ def _run_cvc5(assertions, timeout_ms):
             pass
 
 
-def prove(assumptions, goal, timeout_s=20.0, want_model=True):
+def hard_call(fn, timeout_s):
+    """run fn() in a forked child (shares the z3 terms copy-on-write); hard-kill after timeout_s.
+    -> fn's (picklable) result, or None on timeout/crash.  z3's own timeout is cooperative and is
+    occasionally ignored inside long arithmetic subroutines; a check that hangs is worse than 'unknown'."""
+    import os
+    import pickle
+    import select
+    import signal
+    r, w = os.pipe()
+    pid = os.fork()
+    if pid == 0:
+        code = 0
+        try:
+            os.close(r)
+            res = fn()
+            data = pickle.dumps(res)
+            with os.fdopen(w, 'wb') as f:
+                f.write(data)
+        except BaseException:
+            code = 1
+        finally:
+            os._exit(code)
+    os.close(w)
+    data = b''
+    deadline = time.time() + timeout_s
+    try:
+        while True:
+            left = deadline - time.time()
+            if left <= 0:
+                break
+            rl, _, _ = select.select([r], [], [], min(left, 1.0))
+            if rl:
+                chunk = os.read(r, 1 << 16)
+                if not chunk:
+                    break
+                data += chunk
+    finally:
+        os.close(r)
+        try:
+            os.kill(pid, signal.SIGKILL)
+        except OSError:
+            pass
+        try:
+            os.waitpid(pid, 0)
+        except OSError:
+            pass
+    if not data:
+        return None
+    try:
+        return pickle.loads(data)
+    except Exception:
+        return None
+
+
+PREF = {}
+
+
+def prove_isolated(assumptions, goal, timeout_s, extract, hints=(), key=None):
+    """prove() in a hard-killable child.  extract(model) -> picklable description of a counterexample."""
+    def work():
+        r, m = prove(assumptions, goal, timeout_s=timeout_s, prefer=PREF.get(key))
+        info = None
+        if r == 'sat':
+            if hints:
+                r2, m2 = _run_z3(list(assumptions) + list(hints) + [z3.Not(goal)], 5000)
+                if r2 == 'sat':
+                    m = m2
+            info = extract(m)
+        return r, info, {k: STATS[k] for k in ('solver_s', 'by_strategy')}, STATS.get('last_used')
+    before = dict(STATS['by_strategy'])
+    t0 = time.time()
+    res = hard_call(work, timeout_s * 1.5 + 15)
+    STATS['queries'] += 1
+    if res is None:
+        STATS['unknown'] += 1
+        STATS['solver_s'] += time.time() - t0
+        STATS['by_strategy']['hard-timeout'] = STATS['by_strategy'].get('hard-timeout', 0) + 1
+        return 'unknown', None
+    r, info, st, used = res
+    if key is not None and r == 'unsat' and used:
+        PREF[key] = used
+    STATS[r] += 1
+    STATS['solver_s'] += time.time() - t0
+    for k, v in st['by_strategy'].items():
+        d = v - before.get(k, 0)
+        if d > 0:
+            STATS['by_strategy'][k] = STATS['by_strategy'].get(k, 0) + d
+    return r, info
+
+
+def prove(assumptions, goal, timeout_s=20.0, want_model=True, prefer=None):
     """-> ('unsat', None) goal holds | ('sat', model) counterexample | ('unknown', None)"""
     t0 = time.time()
     neg = z3.Not(goal)
@@ -134,6 +224,8 @@ def prove(assumptions, goal, timeout_s=20.0, want_model=True):
         strategies.append(('z3-default', lambda: _run_z3(base, budget * 0.1)))
     strategies.append(('cvc5', lambda: _run_cvc5(base, budget * 0.2)))
     strategies.append(('z3-default-long', lambda: _run_z3(base, budget * 0.35)))
+    if prefer:
+        strategies.sort(key=lambda nf: 0 if nf[0] == prefer else 1)
     for name, f in strategies:
         r, m = f()
         if r == 'unsat':
@@ -154,6 +246,7 @@ def prove(assumptions, goal, timeout_s=20.0, want_model=True):
     dt = time.time() - t0
     STATS['solver_s'] += dt
     STATS[result] += 1
+    STATS['last_used'] = used
     STATS['by_strategy'][used or 'none'] = STATS['by_strategy'].get(used or 'none', 0) + 1
     return result, model
 
